@@ -234,27 +234,5 @@ for _p in ("int8", "uint8", "int16", "uint16"):
 MIN_OBLIGATIONS = 20
 
 
-def bounded(tier, seed):
-    """labelled BOUNDED stand-in (never counted as proved): real compress() +
-    serialise/deserialise on every array of length <= 3 over boundary values"""
-    import json as _json
-    import os
-    import subprocess
-    here = os.path.dirname(os.path.dirname(os.path.abspath(__file__)))
-    p = subprocess.run(["/venv/bin/python", os.path.join(here, "bounded", "C05.py")], capture_output=True,
-                       text=True, timeout=1200)
-    line = [l for l in p.stdout.strip().split("\n") if l.startswith("{")]
-    if not line:
-        return {"status": "crash", "error": (p.stdout + p.stderr)[-500:]}
-    d = _json.loads(line[-1])
-    out_root = os.environ.get("VERIF_OUT", here)
-    os.makedirs(os.path.join(out_root, "replays"), exist_ok=True)
-    viols = []
-    for i, f in enumerate(d["failures"][:5]):
-        path = os.path.join(out_root, "replays", f"C05_bounded_compress_{i}.json")
-        _json.dump({"property": "C05", "obligation": "bounded::compress_roundtrip", "input": f}, open(path, "w"), indent=1)
-        viols.append({"replay": path, "what": f"compress() round trip of {f['dtype']} {f['array']}: {f['what']}"})
-    return {"bounded_evaluations": d["evaluations"], "bounded_failures": d["n_failures"],
-            "bounded_rule": "BOUNDED (not a proof): all arrays of length 1..3 over boundary values per dtype through the real "
-                            "compress() and BinaryCIFData serialise/deserialise; floats within rtol 1e-6, ints exact, non-finite kept or rejected",
-            "bounded_samples": d["samples"], "violations": viols}
+from pyvc.api import bounded_via_script
+bounded = bounded_via_script("C05")
